@@ -1,9 +1,13 @@
 (* Props/C10.v — Numeric encoding preserves order; range decomposition is exact.
    Only statements, each closed by `exact`, with Print Assumptions beneath. *)
-From Coq Require Import ZArith List.
-From Bluge Require Import Base.Int64 Base.Res Gen.ParamsNumeric Search.Numeric Search.NumericProofs.
+From Coq Require Import ZArith List Bool Sorted.
+From Bluge Require Import Base.Int64 Base.NumBits Base.Res Gen.ParamsNumeric Search.Numeric Search.NumericProofs
+  Search.NumericPrefix Search.NumericSplit Search.NumericEnum Search.NumericRange Search.NumericBin
+  Search.NumericExamples.
 Import ListNotations.
 Open Scope Z_scope.
+
+(* ---------- float64 <-> sortable int64 (numeric/float.go) ---------- *)
 
 (* every one of the 2^64 float64 bit patterns round-trips through the sortable int64 *)
 Theorem f2i_roundtrip : forall b, in_uint64 b -> i2f (f2i b) = b.
@@ -23,3 +27,247 @@ Print Assumptions f2i_order.
 Theorem f2i_zero_adjacent : f2i two63 = -1 /\ f2i 0 = 0.
 Proof. exact f2i_zeros. Qed.
 Print Assumptions f2i_zero_adjacent.
+
+(* ---------- prefix coding (numeric/prefix_coded.go) ---------- *)
+
+(* NewPrefixCodedInt64(v, 0) succeeds and Int64() decodes it back to v; a shift-s term (s <= 62)
+   decodes to v with its low s bits cleared; a shift-63 term is rejected by Shift() (`shift < 63`) *)
+Theorem prefix_roundtrip : forall v, in_int64 v ->
+  (exists p, prefix_coded v 0 = Some p) /\
+  (forall p, prefix_coded v 0 = Some p -> pc_int64 p = Some v) /\
+  (forall s p, 0 <= s <= 62 -> prefix_coded v s = Some p -> pc_int64 p = Some (Z.ldiff v (Z.ones s))) /\
+  (forall p, prefix_coded v 63 = Some p -> pc_int64 p = None).
+Proof. exact prefix_roundtrip_all. Qed.
+Print Assumptions prefix_roundtrip.
+
+Example prefix_roundtrip_example :
+  in_int64 (-123456789) /\
+  (exists p, prefix_coded (-123456789) 0 = Some p /\ pc_int64 p = Some (-123456789)) /\
+  (exists p, prefix_coded (-123456789) 12 = Some p /\ pc_int64 p = Some (-123457536) /\
+             Z.ldiff (-123456789) (Z.ones 12) = -123457536).
+Proof. exact ex_prefix_roundtrip. Qed.
+Print Assumptions prefix_roundtrip_example.
+
+(* at every shift 0..63: equal lengths, and bytes.Compare of two terms = comparison of the
+   sortable values (v + 2^63) truncated by the shift *)
+Theorem prefix_order : forall s a b pa pb, 0 <= s <= 63 -> in_int64 a -> in_int64 b ->
+  prefix_coded a s = Some pa -> prefix_coded b s = Some pb ->
+  bytes_cmp pa pb = Z.compare ((a + 2 ^ 63) / 2 ^ s) ((b + 2 ^ 63) / 2 ^ s) /\ length pa = length pb.
+Proof. exact prefix_order_all. Qed.
+Print Assumptions prefix_order.
+
+(* shift 0: bytewise order = numeric order *)
+Theorem prefix_order_numeric : forall a b pa pb, in_int64 a -> in_int64 b ->
+  prefix_coded a 0 = Some pa -> prefix_coded b 0 = Some pb -> bytes_cmp pa pb = Z.compare a b.
+Proof. exact prefix_order_shift0. Qed.
+Print Assumptions prefix_order_numeric.
+
+Example prefix_order_example :
+  in_int64 (-5) /\ in_int64 300 /\ in_int64 303 /\
+  (exists pa pb pc, prefix_coded (-5) 4 = Some pa /\ prefix_coded 300 4 = Some pb /\ prefix_coded 303 4 = Some pc /\
+     bytes_cmp pa pb = Lt /\ bytes_cmp pb pc = Eq /\ length pa = 10%nat).
+Proof. exact ex_prefix_order. Qed.
+Print Assumptions prefix_order_example.
+
+(* every image of NewPrefixCodedInt64 is accepted by ValidPrefixCodedTermBytes, with its shift *)
+Theorem valid_prefix_coded_images : forall v s p, in_int64 v -> 0 <= s <= 63 ->
+  prefix_coded v s = Some p -> valid_prefix_coded p = (true, s).
+Proof. exact valid_prefix_coded_images_all. Qed.
+Print Assumptions valid_prefix_coded_images.
+
+(* exactly what it accepts: first byte in [0x20, 0x20+63] and the length belonging to that shift *)
+Theorem valid_prefix_coded_accepts : forall p s,
+  valid_prefix_coded p = (true, s) <->
+  exists b rest, p = b :: rest /\ shift_start_int64 <= b <= shift_start_int64 + 63 /\
+                 s = b - shift_start_int64 /\ Z.of_nat (length p) = n_chars s + 1.
+Proof. exact valid_prefix_coded_spec. Qed.
+Print Assumptions valid_prefix_coded_accepts.
+
+(* it does NOT check that the remaining bytes are 7-bit digits: "accepts exactly the images"
+   (DESIGN.md C10) is refuted by 0x20 followed by ten 0xff bytes *)
+Theorem valid_prefix_coded_exact_refuted :
+  exists p, valid_prefix_coded p = (true, 0) /\ forall v s, prefix_coded v s <> Some p.
+Proof. exact valid_prefix_coded_exact_refuted_all. Qed.
+Print Assumptions valid_prefix_coded_exact_refuted.
+
+Example valid_prefix_coded_example :
+  exists p, prefix_coded 77 8 = Some p /\ valid_prefix_coded p = (true, 8) /\ length p = 9%nat.
+Proof. exact ex_valid_prefix_coded. Qed.
+Print Assumptions valid_prefix_coded_example.
+
+(* ---------- index-time tokens (field.go numericAnalyzer / addShiftTokens) ---------- *)
+
+Theorem index_tokens_are_prefix_codes : forall v, in_int64 v ->
+  map Some (index_tokens v numeric_precision_step)
+  = map (prefix_coded v) [0; 4; 8; 12; 16; 20; 24; 28; 32; 36; 40; 44; 48; 52; 56; 60].
+Proof. exact index_tokens_prefix_coded. Qed.
+Print Assumptions index_tokens_are_prefix_codes.
+
+(* datetime fields use the same shifts; geo point fields index the Morton hash at shifts 0, 9, ..., 63 *)
+Theorem index_tokens_datetime_same : forall v,
+  index_tokens v datetime_precision_step = index_tokens v numeric_precision_step.
+Proof. exact index_tokens_datetime. Qed.
+Print Assumptions index_tokens_datetime_same.
+
+Theorem index_tokens_geo_are_prefix_codes : forall v, in_int64 v ->
+  map Some (index_tokens v geo_precision_step) = map (prefix_coded v) [0; 9; 18; 27; 36; 45; 54; 63].
+Proof. exact index_tokens_geo. Qed.
+Print Assumptions index_tokens_geo_are_prefix_codes.
+
+(* query-time step = index-time steps, over the regenerated constants *)
+Theorem index_query_steps_agree :
+  query_precision_step = numeric_precision_step /\ query_precision_step = datetime_precision_step.
+Proof. exact steps_agree. Qed.
+Print Assumptions index_query_steps_agree.
+
+(* ---------- splitInt64Range (search_numeric_range.go:141-188) ---------- *)
+
+(* never out of fuel, never panics; 16 iterations suffice *)
+Theorem split_fuel : forall lo hi, in_int64 lo -> in_int64 hi ->
+  split_range lo hi query_precision_step <> OutOfFuel /\
+  (forall c, split_range lo hi query_precision_step <> Panic c) /\
+  (lo <= hi -> split_loop 16 lo hi 0 query_precision_step [] = split_range lo hi query_precision_step).
+Proof. exact split_fuel_all. Qed.
+Print Assumptions split_fuel.
+
+(* THE decomposition is exact, for all 2^128 intervals and all 2^64 values: some emitted range
+   contains some index token of v (same length, bytewise between its two terms) iff lo <= v <= hi *)
+Theorem split_exact : forall lo hi, in_int64 lo -> in_int64 hi ->
+  exists rs, split_range lo hi query_precision_step = Ok rs /\
+    forall v, in_int64 v ->
+      ((exists r, In r rs /\ exists t, In t (index_tokens v numeric_precision_step) /\ in_trange r t = true)
+       <-> lo <= v <= hi).
+Proof. exact split_exact_all. Qed.
+Print Assumptions split_exact.
+
+Example split_exact_example :
+  in_int64 (-1000) /\ in_int64 70000 /\
+  exists rs, split_range (-1000) 70000 query_precision_step = Ok rs /\ length rs = 8%nat /\
+             covered rs 65536 /\ covered rs (-1000) /\ covered rs 70000 /\
+             covered_b rs 70001 = false /\ covered_b rs (-1001) = false.
+Proof. exact ex_split_exact. Qed.
+Print Assumptions split_exact_example.
+
+(* ---------- termRange.Enumerate / incrementBytes (search_numeric_range.go:88-118) ---------- *)
+
+(* on a range of two equal-length byte strings a finished run returns exactly the dictionary
+   terms among the strings of that length between them (bytes as base-256 digits), in increasing
+   order, and has used one loop step per candidate string (plus the final failing comparison) *)
+Theorem enumerate_spec : forall fuel r dict ts,
+  wf_bytes (tr_start r) -> wf_bytes (tr_end r) -> length (tr_start r) = length (tr_end r) ->
+  enumerate_range fuel r dict = Ok ts ->
+  ts = filter dict (between (tr_start r) (tr_end r)) /\
+  (forall t, In t ts <-> length t = length (tr_start r) /\ wf_bytes t /\
+                         bytes_le (tr_start r) t = true /\ bytes_le t (tr_end r) = true /\ dict t = true) /\
+  StronglySorted (fun a b => bytes_lt a b = true) ts /\
+  (bval (tr_start r) <= bval (tr_end r) -> bval (tr_end r) - bval (tr_start r) + 2 <= Z.of_nat fuel).
+Proof. exact enumerate_spec_all. Qed.
+Print Assumptions enumerate_spec.
+
+Example enumerate_spec_example :
+  exists r ts, split_range 100 107 query_precision_step = Ok [r] /\
+    wf_bytes (tr_start r) /\ wf_bytes (tr_end r) /\ length (tr_start r) = length (tr_end r) /\
+    enumerate_range 20 r (fun t => bytes_eqb t (enc 101 0) || bytes_eqb t (enc 107 0)) = Ok ts /\
+    ts = [enc 101 0; enc 107 0].
+Proof. exact ex_enumerate. Qed.
+Print Assumptions enumerate_spec_example.
+
+(* known finding D8 (KNOWN_FINDINGS enumerate-blowup-carry): "Enumerate terminates within the
+   harness budget on every split range" is refuted by [-1, 0] = NumericRange[-0.0, +0.0] ... *)
+Theorem enumerate_blowup_refuted :
+  exists r, split_range (-1) 0 query_precision_step = Ok [r] /\
+            enumerate_range enum_fuel r (fun _ => false) = OutOfFuel.
+Proof. exact enumerate_blowup_witness. Qed.
+Print Assumptions enumerate_blowup_refuted.
+
+(* ... whose walk needs more than 2^71 steps whatever the dictionary *)
+Theorem enumerate_blowup_steps : forall fuel dict ts r,
+  split_range (-1) 0 query_precision_step = Ok [r] ->
+  enumerate_range fuel r dict = Ok ts -> 2 ^ 71 < Z.of_nat fuel.
+Proof. exact enumerate_blowup_cost. Qed.
+Print Assumptions enumerate_blowup_steps.
+
+(* ---------- NewNumericRangeSearcher front end + split + f2i_order ---------- *)
+
+(* the int64 bounds for every pair of end-point patterns, guards included: an exclusive min whose
+   sortable integer is MaxInt64 (resp. exclusive max at MinInt64) is left in place = inclusive *)
+Theorem range_bounds_behaviour : forall lo hi il ih v, in_uint64 lo -> in_uint64 hi -> in_int64 v ->
+  in_int64 (lo_bound lo il) /\ in_int64 (hi_bound hi ih) /\
+  (lo_bound lo il <= v <->
+     if lo =? bits_neg_inf then il = true \/ min_int64 < v
+     else f2i lo < v \/ (f2i lo = v /\ (il = true \/ v = max_int64))) /\
+  (v <= hi_bound hi ih <->
+     if hi =? bits_pos_inf then ih = true \/ v < max_int64
+     else v < f2i hi \/ (f2i hi = v /\ (ih = true \/ v = min_int64))).
+Proof. exact range_bounds_guards. Qed.
+Print Assumptions range_bounds_behaviour.
+
+(* a finite document value x is selected iff it lies in the interval (float_lt order, -0 below +0,
+   stated inclusivity); the -Inf pattern as min / the +Inf pattern as max are open ends; holds for
+   all 2^64 end-point patterns (the guards are invisible to finite x) *)
+Theorem numeric_range_exact : forall lo hi il ih x,
+  in_uint64 lo -> in_uint64 hi -> in_uint64 x -> finite x ->
+  exists rs,
+    split_range (fst (range_bounds lo hi il ih)) (snd (range_bounds lo hi il ih)) query_precision_step = Ok rs /\
+    (covered rs (f2i x) <-> lower_ok lo il x /\ upper_ok hi ih x).
+Proof. exact numeric_range_exact_all. Qed.
+Print Assumptions numeric_range_exact.
+
+Example numeric_range_exact_example :
+  in_uint64 bits_1_5 /\ in_uint64 bits_10_0 /\ in_uint64 bits_3_0 /\ finite bits_3_0 /\ finite bits_m2_0 /\
+  lower_ok bits_1_5 true bits_3_0 /\ upper_ok bits_10_0 false bits_3_0 /\
+  ~ lower_ok bits_1_5 true bits_m2_0.
+Proof. exact ex_numeric_range. Qed.
+Print Assumptions numeric_range_exact_example.
+
+(* the guard observed: exclusive min at the pattern 0x7fffffffffffffff (sortable MaxInt64) still
+   selects that value *)
+Theorem range_guard_max_is_inclusive :
+  let nan := max_int64 in
+  exists rs, split_range (fst (range_bounds nan bits_pos_inf false true))
+                         (snd (range_bounds nan bits_pos_inf false true)) query_precision_step = Ok rs /\
+             covered rs (f2i nan) /\ ~ float_lt nan nan.
+Proof. exact range_guard_max_inclusive. Qed.
+Print Assumptions range_guard_max_is_inclusive.
+
+(* date ranges (query.go DateRangeQuery: int64 nanoseconds through Int64ToFloat64): exact for all
+   end points except the two instants whose float image is an infinity; guards stated *)
+Theorem date_range_exact : forall a b il ih v, in_int64 a -> in_int64 b -> in_int64 v ->
+  a <> nanos_neg_inf_alias -> b <> nanos_pos_inf_alias ->
+  exists rs,
+    split_range (fst (range_bounds (i2f a) (i2f b) il ih)) (snd (range_bounds (i2f a) (i2f b) il ih))
+                datetime_precision_step = Ok rs /\
+    (covered rs v <->
+       (a < v \/ (a = v /\ (il = true \/ v = max_int64))) /\
+       (v < b \/ (b = v /\ (ih = true \/ v = min_int64)))).
+Proof. exact date_range_exact_all. Qed.
+Print Assumptions date_range_exact.
+
+Example date_range_exact_example :
+  in_int64 1577836800000000000 /\ in_int64 1609459200000000000 /\
+  1577836800000000000 <> nanos_neg_inf_alias /\ 1609459200000000000 <> nanos_pos_inf_alias.
+Proof. exact ex_date_range. Qed.
+Print Assumptions date_range_exact_example.
+
+(* without that exclusion the statement is false: an inclusive end at 9218868437227405312 ns
+   (2262-02-18) is read as +Inf and selects later instants too *)
+Theorem date_range_inf_alias_refuted :
+  exists a b v rs, in_int64 a /\ in_int64 b /\ in_int64 v /\
+    split_range (fst (range_bounds (i2f a) (i2f b) true true)) (snd (range_bounds (i2f a) (i2f b) true true))
+                datetime_precision_step = Ok rs /\
+    covered rs v /\ b < v.
+Proof. exact date_range_inf_alias_refuted_all. Qed.
+Print Assumptions date_range_inf_alias_refuted.
+
+(* ---------- numeric/bin.go ---------- *)
+
+Theorem interleave_roundtrip : forall a b, 0 <= a < 2 ^ 32 -> 0 <= b < 2 ^ 32 ->
+  deinterleave (interleave a b) = a /\ deinterleave (Z.shiftr (interleave a b) 1) = b.
+Proof. exact interleave_roundtrip_all. Qed.
+Print Assumptions interleave_roundtrip.
+
+Example interleave_roundtrip_example :
+  0 <= 0xDEADBEEF < 2 ^ 32 /\ 0 <= 0x12345678 < 2 ^ 32 /\
+  interleave 0xDEADBEEF 0x12345678 = 0x535C4E71677C7ED5.
+Proof. exact ex_interleave. Qed.
+Print Assumptions interleave_roundtrip_example.
